@@ -19,6 +19,10 @@ def setups(tier):
     # update 2 (a child of job 1) is completed and committed: committing the LOWER update must not touch the higher one
     s.append(('chain+open_u3+u2', 'u1_chain', 'u2_rest_after_reserve',
               [('new_update', 'u1', 't2', 1, 0), ('new_update', 'u1', 't3', 1, 0), ('add_jobs', 'u1', 3, [bf.J(1, abs_group=0)])]))
+    # job 2 of update 1 names its parent by absolute id
+    s.append(('chain_abs+child_of_1', 'u1_chain_abs', 'u2_child_of_1', []))
+    # update 1 has only a job group, so update 2's job ids start at 1
+    s.append(('groups_only_u1+job', 'u1_groups_only', 'u2_parentless_job_in_g1', []))
     # update 1 (one job) has already run to completion, so the batch is complete; update 2 adds only a job group
     s.append(('done1+empty_groups', 'u1_single', 'u2_empty_groups_only',
               [('sched', 0, 'i1'), ('complete', 1, 'A001xx', 'i1', 'Success', 10, 20)]))
